@@ -5,8 +5,11 @@ from . import kripke_checks as kc
 from .p_graph import TRUSTED, absorb
 
 
+UNIVERSES = [(0, 1, 2), ((0, 0), (0, 1), ()), ('s', (1,), 2)]
+
+
 def run_c14(rep, tier):
-    rep.assumptions += ['universe of 3 values {0,1,2} plus one value that is never a state; one atom p; label dictionaries with symbolic key presence',
+    rep.assumptions += ['universe of 3 state values plus one value that is never a state, for three choices of the values: ints {0,1,2}, tuples {(0,0),(0,1),()}, mixed {"s",(1,),2}; one atom p; label dictionaries with symbolic key presence',
                         '/repo at fix commit 36a2c0d or later (get_substructure labels repaired)']
     rep.cov['trusted_base'] = TRUSTED
     rep.cov['explanation'] = ('Kripke.__init__ (and DiGraph.__init__) executed symbolically with symbolic membership of S, R, S0 and symbolic keys/values of L: '
@@ -15,16 +18,19 @@ def run_c14(rep, tier):
                               'get_substructure(V) for symbolic V: raises <=> induced relation not total, else exact induced structure, no shared set, receiver unchanged')
     tasks = []
     fk = ['s0_%d' % i for i in range(3)] + ['lk_%d' % i for i in range(3)]
-    for vals in itertools.product([False, True], repeat=6):
-        tasks.append(('ctor', dict(zip(fk, vals))))
     fk2 = ['s0_%d' % i for i in range(3)]
-    for vals in itertools.product([False, True], repeat=3):
-        tasks.append(('clone', dict(zip(fk2, vals))))
-        tasks.append(('sub', dict(zip(fk2, vals))))
-    rep.cov['bounds'].update(universe=3, forks='ctor: 64 forks (S0 and key presence) x 15 merged unknowns; clone/substructure: 8 forks x 15-16 merged unknowns')
+    # the three state values: small ints; tuples of length 2, 2 and 0 (what product constructions use); a str/tuple/int mix
+    for u in UNIVERSES:
+        for vals in itertools.product([False, True], repeat=6):
+            tasks.append(('ctor', dict(zip(fk, vals)), u))
+        for vals in itertools.product([False, True], repeat=3):
+            tasks.append(('clone', dict(zip(fk2, vals)), u))
+            tasks.append(('sub', dict(zip(fk2, vals)), u))
+    rep.cov['bounds'].update(universe=3, state_values=[repr(u) for u in UNIVERSES],
+                             forks='per universe: ctor 64 forks (S0 and key presence) x 15 merged unknowns; clone/substructure: 8 forks x 15-16 merged unknowns')
     n = 0
     for t, st, r, secs in pmap(_dispatch, tasks):
-        key = 'kripke %s fork=%s' % (t[0], ''.join('1' if v else '0' for v in t[1].values()))
+        key = 'kripke %s states=%r fork=%s' % (t[0], t[2], ''.join('1' if v else '0' for v in t[1].values()))
         if st == 'ok':
             r.setdefault('solver_s', 0); r.setdefault('gates', 0); r.setdefault('queries', 0); r.setdefault('encode_s', 0)
         absorb(rep, t, st, r, secs, key, kc.c14_replay, {'ctor': 'Kripke(S,S0,R,L): raises <=> not total; exact contents; accessors',
@@ -40,10 +46,10 @@ def run_c14(rep, tier):
     rep.cov['states_meaning'] = 'forks decided unsat; each covers 2^15..2^16 argument combinations'
 
 
-def _dispatch(what, fixed):
+def _dispatch(what, fixed, u=(0, 1, 2)):
     if what == 'ctor':
-        r = kc.ctor_task(fixed)
+        r = kc.ctor_task(fixed, u)
         if r.get('twin2') != 'sat' and r.get('twin') == 'sat':
             r['twin'] = r['twin2']
         return r
-    return kc.copy_task(what, fixed)
+    return kc.copy_task(what, fixed, u)
